@@ -301,7 +301,22 @@ impl EncodingVersion for EncodingVersion1 {
         let orig_pos = deserializer.reader.pos;
         let result = if let Ok(length) = Self::seek_to_pid(deserializer, pid) {
             if length > 0 {
-                deserializer.deserialize_value(member, dynamic_data)
+                // The alignment origin of the member value is the start of the value
+                // (PUSH(ORIGIN=0)), so the value is read from its own buffer
+                let buffer = deserializer.reader.buffer;
+                let start = deserializer.reader.pos;
+                match buffer.get(start..start + length as usize) {
+                    Some(member_buffer) => {
+                        deserializer.reader = Reader {
+                            buffer: member_buffer,
+                            pos: 0,
+                        };
+                        let result = deserializer.deserialize_value(member, dynamic_data);
+                        deserializer.reader = Reader { buffer, pos: start };
+                        result
+                    }
+                    None => Err(XTypesError::NotEnoughData),
+                }
             } else {
                 Ok(())
             }
